@@ -56,7 +56,7 @@ fn offset_of(log: &MultiRecordLog) -> usize {
 
 const NQ: usize = 2;
 const NAMES: [&str; NQ] = ["a", "bq"];
-const MAXREC: usize = 5;
+const MAXREC: usize = 7; // 2 pre-populated records + up to two batches of 2 (scripts of <= 3 calls)
 const NFILES: usize = 3;
 const FILE_BYTES: usize = (1 << 15) * (1 << 12); // rolling::FILE_NUM_BYTES outside cfg(test)
 
@@ -228,17 +228,17 @@ fn log_script<const INIT: usize, const K: usize, const POLICY: usize>(ops: [u8; 
             exists: true,
             next: 2,
             n: 1,
-            pos: [1, 0, 0, 0, 0],
-            byte: [init_bytes[1], 0, 0, 0, 0],
-            file: [1, 0, 0, 0, 0],
+            pos: [1, 0, 0, 0, 0, 0, 0],
+            byte: [init_bytes[1], 0, 0, 0, 0, 0, 0],
+            file: [1, 0, 0, 0, 0, 0, 0],
         };
         m.q[1] = RefQueue {
             exists: true,
             next: 1,
             n: 1,
             pos: [0; MAXREC],
-            byte: [init_bytes[2], 0, 0, 0, 0],
-            file: [1, 0, 0, 0, 0],
+            byte: [init_bytes[2], 0, 0, 0, 0, 0, 0],
+            file: [1, 0, 0, 0, 0, 0, 0],
         };
     }
     if INIT == 1 {
@@ -252,17 +252,17 @@ fn log_script<const INIT: usize, const K: usize, const POLICY: usize>(ops: [u8; 
             exists: true,
             next: 2,
             n: 2,
-            pos: [0, 1, 0, 0, 0],
-            byte: [init_bytes[0], init_bytes[1], 0, 0, 0],
-            file: [0, 1, 0, 0, 0],
+            pos: [0, 1, 0, 0, 0, 0, 0],
+            byte: [init_bytes[0], init_bytes[1], 0, 0, 0, 0, 0],
+            file: [0, 1, 0, 0, 0, 0, 0],
         };
         m.q[1] = RefQueue {
             exists: true,
             next: 1,
             n: 1,
             pos: [0; MAXREC],
-            byte: [init_bytes[2], 0, 0, 0, 0],
-            file: [1, 0, 0, 0, 0],
+            byte: [init_bytes[2], 0, 0, 0, 0, 0, 0],
+            file: [1, 0, 0, 0, 0, 0, 0],
         };
     }
     drop(f0);
